@@ -43,7 +43,7 @@ Qed.
 
 Lemma inl_text i : o_inl_sup i = true -> flat_map piece_text (r_inl i) = flat (inl_syms i).
 Proof.
-  induction i as [t| | |t|t|t|k l IH|v ps IH] using inl_ind'; intro H; simpl in *;
+  induction i as [t| |b| |t|t|t|k l IH|v ps IH] using inl_ind'; intro H; simpl in *;
     try reflexivity.
   - assert (Hl : flat_map piece_text (flat_map r_inl l) = flat (flat_map inl_syms l)).
     { unfold flat. rewrite !flat_map_flat_map. apply flat_map_ext_in'. intros x Hx.
@@ -208,7 +208,7 @@ Definition mkdoc (bs : list block) : doc := {| body := bs; headers := [[24064]];
 Definition odt_rich_doc : doc :=
   mkdoc
     [ BPara (PHeading 0) [IRun [19968]; IWrap KLink [IRun [19969]]];
-      BPara PNormal [IRun [19970]; IDel [20992]; ITab; IRun [19971]; IBreak; IWrap KIns [IRun [19972]];
+      BPara PNormal [IRun [19970]; IDel [20992]; ITab; IRun [19971]; IBreak BrLine; IMark; IWrap KIns [IRun [19972]];
                      IComment [23040]; IMovedFrom [22016]; IWrap KSpan [IRun [19973]; IWrap KSdt [IRun [19974]]]];
       BPara (PListItem 1) [IRun [19975]];
       BTable [[[BPara PNormal [IRun [19976]];
